@@ -43,6 +43,11 @@ class CountingTokens:
             if p is not None and p > self.stats["maxpos"]:
                 self.stats["maxpos"] = p
                 self.stats["maxtok"] = str(t)[:40]
+            if p is not None and p > self.stats.get("maxpos_all", -1):
+                # over every token generator made from this lexer_fn (a parser may
+                # lex the text more than once, e.g. in a pre-pass)
+                self.stats["maxpos_all"] = p
+                self.stats["maxtok_all"] = str(t)[:40]
         return t
 
     def send(self, v):
@@ -66,7 +71,10 @@ def counting_lexer(stats=None, factor=60, floor=2000):
         stats = new_stats()
 
     def fn(s, g=None, d=None):
+        keep = {k: stats[k] for k in ("maxpos_all", "maxtok_all") if k in stats}
         stats.update(new_stats())
+        stats.update(keep)
+        stats["lexers"] = stats.get("lexers", 0) + 1
         gen = pvl.lexer.lexer(s, g=g, d=d)
         return CountingTokens(gen, factor * len(s) + floor, stats)
 
